@@ -52,10 +52,12 @@ let parse_spec (s : string) : nspec =
     incr i; let p = ref 0 in
     while !i < n && s.[!i] >= '0' && s.[!i] <= '9' do p := !p * 10 + Char.code s.[!i] - 48; incr i done;
     prec := Some (nat_of_int !p) end;
-  let long = ref false in
-  while !i < n && s.[!i] = 'l' do long := true; incr i done;
+  (* length modifiers: l ll j z t q name 64-bit types; h = short, hh = char *)
+  let long = ref false and short = ref 0 in
+  while !i < n && String.contains "hljztq" s.[!i] do
+    (if s.[!i] = 'h' then incr short else long := true); incr i done;
   if !i <> n - 1 then failwith ("bad spec " ^ s);
-  rt_mkspec (n_of_int (Char.code s.[!i])) !long !plus !space !zero !alt (nat_of_int !w) !prec
+  rt_mkspec (n_of_int (Char.code s.[!i])) !long !plus !space !zero !alt (nat_of_int !w) !prec (nat_of_int !short)
 let is_float_spec s = let c = s.[String.length s - 1] in c = 'f' || c = 'F'
 let val_s = function
   | VInt z -> "i" ^ z_to_dec z | VFloat b -> "f" ^ hex16_of_n b | VStr s -> "s" ^ hex_of_bytes s
@@ -109,7 +111,9 @@ let () =
              let r = match res with
                | SOk (vs, p) -> "R" ^ String.concat "," (List.map val_s vs) ^ ";" ^ string_of_int (int_of_nat p)
                | SRaise _ -> "R!FormatError" in
-             print_endline ("W" ^ hex_of_bytes content ^ ";" ^ string_of_int wpos ^ "|" ^ r)
+             let texts = List.filter_map (fun (p, _, _) -> match p with
+               | PNum (_, _) -> Some (hex_of_bytes (rt_print [p])) | _ -> None) parsed in
+             print_endline ("W" ^ hex_of_bytes content ^ ";" ^ string_of_int wpos ^ ";" ^ String.concat "," texts ^ "|" ^ r)
            end
          | _ -> print_endline "BADCASE")
       with Failure m -> print_endline ("BADCASE " ^ m) | Not_found -> print_endline "BADCASE nf"))
